@@ -36,3 +36,7 @@ def run(chk, repo):
         check_adapter(chk, "C16-V1", repo, L.ev, key)
     from ..shapes_rules import link_tables
     link_tables(chk, repo, L, "C16")
+    from .common_rules import parse_and_transform, to_dict_contract
+    chk.rule("C16-V5", "the volume directory is parsed with volume_directory_record, converted by to_dict and transformed by transform_record", 4)
+    to_dict_contract(chk, repo, "C16-V5")
+    parse_and_transform(chk, repo, "C16-V5", "ceos_alos2.volume_directory.io", "volume_directory_record", "transform_record", "open_volume_directory")
